@@ -83,3 +83,15 @@ Definition step_ack_guard_b (tb : tiebreak) (cf : config) (s : sim) (e : event) 
   end.
 Fixpoint run_ack_guard_b (tb : tiebreak) (cf : config) (n : Z) (sc : script) (es : list event) (s : sim) : bool :=
   match es with [] => true | e :: r => step_ack_guard_b tb cf s e && run_ack_guard_b tb cf n sc r (step tb cf n sc s e) end.
+
+(* ---- the (market, name) keys under which a run's script places orders; side condition of the names theorem (C13): each used once, all below
+        the first replacement name ---- *)
+Definition act_keys0 (mid : Z) (a : action) : list (Z * Z) := match a with APlace name _ _ _ _ => [(mid, name)] | _ => [] end.
+Definition act_keys (mid : Z) (a : action) : list (Z * Z) := match a with AOn mid' a' => act_keys0 mid' a' | _ => act_keys0 mid a end.
+Definition ev_keys (sc : script) (n : Z) (e : event) : list (Z * Z) :=
+  flat_map (fun st => flat_map (act_keys (ev_market e)) (sc st (ev_market e) (ev_idx e))) (map Z.of_nat (seq 0 (Z.to_nat n))).
+Definition run_keys (sc : script) (n : Z) (es : list event) : list (Z * Z) := flat_map (ev_keys sc n) es.
+Fixpoint nodup_keys_b (l : list (Z * Z)) : bool :=
+  match l with [] => true | k :: r => negb (existsb (fun x => (fst x =? fst k) && (snd x =? snd k)) r) && nodup_keys_b r end.
+Definition keys_ok_b (sc : script) (n : Z) (es : list event) : bool :=
+  nodup_keys_b (run_keys sc n es) && forallb (fun k => snd k <? 1000) (run_keys sc n es).
